@@ -6,6 +6,10 @@ try-else / try-finally bodies, adjacent bytes values, sub-template) : rendering 
 with x = s and be text whenever there is more than one piece.
 Part 2 (str()): non-string values are inserted as str(), exceptions as their message, and only a misbehaving __str__
 raises.
+Part 3 (several templates in one process): one source text compiled under several encodings / classes, one after the
+other, and rendered again with other data; one bytes object rendered by templates of different encodings.
+Part 4 (histories of values): values that are equal but print differently, one after the other; values that change
+between two renderings.  Expected outputs of parts 3 and 4 are literals built from the property, never a rendering.
 Correspondence: part 1 on the Lean interpreter model (utf-8 and latin-1 templates).
 """
 import json
@@ -245,20 +249,367 @@ def part2(res, r):
                                         'what': 'raised %r, expected one of %r' % (e, exc)})
 
 
+# ----------------------------------------------------------------------------
+# part 3: several template objects in one process (same source text, other encoding / class), templates rendered again
+# with other data.  Every expectation is written down here from the property (literal text around s, html.escape for
+# the quoted form); nothing is taken from a rendering.
+
+def _q(s):
+    import html
+    return html.escape(s, True)
+
+
+class Holder:
+    """client / dtml-with object"""
+
+    def __init__(self, **kw):
+        self.__dict__.update(kw)
+
+
+# name, HTML source, expected text as a function of the inserted text s
+SHARED_SOURCES = [
+    ('top', '[<dtml-var x>|&dtml-x;]', lambda s: '[%s|%s]' % (s, _q(s))),
+    ('in', '<ul><dtml-in seq><li><dtml-var x> / &dtml-x; / <dtml-if x>&dtml-x;</dtml-if></li></dtml-in></ul>',
+     lambda s: '<ul>' + ('<li>%s / %s / %s</li>' % (s, _q(s), _q(s) if s else '')) * 2 + '</ul>'),
+    ('in-items', '<dtml-in bseq>(<dtml-var sequence-item>)</dtml-in>.', lambda s: '(%s)(%s).' % (s, s)),
+    ('in-items-quoted', '<dtml-in bseq>(&dtml-sequence-item;)</dtml-in>.', lambda s: '(%s)(%s).' % (_q(s), _q(s))),
+    ('in-else', '<dtml-in empty>never<dtml-else>-<dtml-var x>-</dtml-in>', lambda s: '-%s-' % s),
+    ('in-in', '<dtml-in seq><dtml-in seq>.<dtml-var x></dtml-in>;</dtml-in>', lambda s: (('.' + s) * 2 + ';') * 2),
+    ('if', '<dtml-if one>T<dtml-var x><dtml-else>F</dtml-if>.', lambda s: 'T%s.' % s),
+    ('if-else', '<dtml-if zero>T<dtml-else>F&dtml-x;</dtml-if>.', lambda s: 'F%s.' % _q(s)),
+    ('unless', '<dtml-unless zero><dtml-var x>!</dtml-unless>', lambda s: '%s!' % s),
+    ('let', '<dtml-let z=x>{<dtml-var z>}{&dtml-x;}</dtml-let>', lambda s: '{%s}{%s}' % (s, _q(s))),
+    ('with', '<dtml-with wobj>{<dtml-var wx>}</dtml-with>', lambda s: '{%s}' % s),
+    ('with-mapping', '<dtml-with wmap mapping>{&dtml-wx;}</dtml-with>', lambda s: '{%s}' % _q(s)),
+    ('try-body', '<dtml-try>B<dtml-var x><dtml-except>H</dtml-try>', lambda s: 'B%s' % s),
+    ('try-handler', '<dtml-try><dtml-raise KeyError>k</dtml-raise><dtml-except>h<dtml-var x>h</dtml-try>',
+     lambda s: 'h%sh' % s),
+    ('try-else', '<dtml-try>B<dtml-except>H<dtml-else>E<dtml-var x></dtml-try>', lambda s: 'BE%s' % s),
+    ('try-finally', '<dtml-try>B<dtml-var x><dtml-finally>F&dtml-x;</dtml-try>', lambda s: 'B%sF%s' % (s, _q(s))),
+    ('raise-message', '<dtml-try><dtml-raise ValueError>m:<dtml-var x></dtml-raise><dtml-except>'
+                      '<dtml-var error_value>!</dtml-try>', lambda s: 'm:%s!' % s),
+    ('in-let-try', '<dtml-in seq><dtml-let z=x><dtml-try><dtml-var z>,<dtml-except>H</dtml-try></dtml-let></dtml-in>',
+     lambda s: (s + ',') * 2),
+    ('sub', '{<dtml-var sub>}', lambda s: '{s%s}' % s),
+]
+# the %(name)s syntax of the String class
+STRING_SOURCES = [
+    ('string-top', '[%(x)s]', lambda s: '[%s]' % s),
+    ('string-in-with', '[%(x)s]%(in seq)[<%(x)s>%(in)]%(with wobj)[{%(wx)s}%(with)]',
+     lambda s: '[%s]<%s><%s>{%s}' % (s, s, s, s)),
+]
+SUB_SOURCE = 's<dtml-var x>'
+ENC_LABELS = [None, 'utf-8', 'latin-1', 'cp1252', 'utf-16']      # None: the default of a new template = UTF-8
+SHARED_TEXTS = ['é<ÿ>', 'Grüße & "x"', '€uro …', 'naïve €', 'жук', '日本\U0001F600<', 'x\u0080y']
+# byte strings that are valid in several encodings and mean something else in each of them
+RAW_BYTES = [b'\xc3\xa9', b'\x80\xe9', b'<\x00&\x00', b'\xe2\x82\xac<']
+
+
+def real_enc(label):
+    return label or 'utf-8'
+
+
+def ns_for(val, sub=None):
+    ns = {'x': val, 'seq': [1, 2], 'bseq': [val, val], 'empty': [], 'one': 1, 'zero': 0,
+          'wobj': Holder(wx=val), 'wmap': {'wx': val}}
+    if sub is not None:
+        ns['sub'] = sub
+    return ns
+
+
+def part3(res, r, pairs_per_source=None):
+    from DocumentTemplate import HTML, String
+
+    class SubHTML(HTML):
+        """a second template class with the same syntax"""
+
+    class SubString(String):
+        pass
+
+    history = []
+    created = {}
+
+    def make(cls, src, label):
+        created.setdefault(src, []).append('%s(source, encoding=%r)' % (cls.__name__, label) if label
+                                           else '%s(source)' % cls.__name__)
+        return cls(src, encoding=label) if label else cls(src)
+
+    def check(kind, name, src, t, label, val, s, want):
+        res.evaluations += 1
+        sub = HTML(SUB_SOURCE, encoding=label) if name == 'sub' else None
+        try:
+            got = t(**ns_for(val, sub))
+        except Exception as e:  # noqa
+            got = 'raised %r' % (e,)
+        history.append('%s(%r, encoding=%r) rendered with x=%r' % (type(t).__name__, src, label, val))
+        if got != want or not isinstance(got, str):
+            res.oracle_fail.append({
+                'case': {'kind': kind, 'source': src, 'template class': type(t).__name__, 'encoding': label, 'x': repr(val),
+                         'text': s, 'templates created from this source so far, oldest first': created.get(src, [])[-8:],
+                         'renderings before this one, oldest first': history[-5:-1]},
+                'what': 'got %r, expected %r (x decoded with the encoding this template was created with)' % (got, want)})
+
+    def bytes_then_text(kind, name, src, fn, t, label, s):
+        check(kind, name, src, t, label, s.encode(real_enc(label)), s, fn(s))
+        check(kind, name, src, t, label, s, s, fn(s))
+
+    def pick(label, k):
+        ok = [s for s in SHARED_TEXTS if encodable(s, real_enc(label))]
+        return [ok[k % len(ok)], r.choice(ok)]
+
+    all_pairs = [(a, b) for a in ENC_LABELS for b in ENC_LABELS if a != b]
+    k = 0
+    for classes, sources in (((HTML, SubHTML), SHARED_SOURCES), ((String, SubString), STRING_SOURCES)):
+        for name, src, fn in sources:
+            pairs = list(all_pairs)
+            r.shuffle(pairs)
+            if pairs_per_source:
+                pairs = pairs[:pairs_per_source]
+            for a, b in pairs:
+                k += 1
+                # the same source under the same class: once with encoding a, then with encoding b
+                cls = classes[k % 2]
+                other = classes[(k + 1) % 2]
+                res.count('same source, two encodings')
+                res.nt(('shared-source', name, a, b))
+                for sa, sb in zip(pick(a, k), pick(b, k + 1)):
+                    ta = make(cls, src, a)
+                    bytes_then_text('same-source/first', name, src, fn, ta, a, sa)
+                    tb = make(cls, src, b)
+                    bytes_then_text('same-source/second', name, src, fn, tb, b, sb)
+                    # the first one again (other data), a template of the other class, a third object with encoding a
+                    bytes_then_text('same-source/first-again', name, src, fn, ta, a, sb if encodable(sb, real_enc(a)) else sa)
+                    tc = make(other, src, b)
+                    bytes_then_text('same-source/other-class', name, src, fn, tc, b, sb)
+                    td = make(cls, src, a)
+                    bytes_then_text('same-source/third', name, src, fn, td, a, sa)
+                    # one bytes object, templates of both encodings: it means what each template's encoding says
+                    for raw in RAW_BYTES:
+                        for t, label in ((ta, a), (tb, b), (ta, a)):
+                            try:
+                                s = raw.decode(real_enc(label))
+                            except UnicodeError:
+                                continue
+                            res.count('same bytes, two encodings')
+                            check('same-bytes', name, src, t, label, raw, s, fn(s))
+
+
+# ----------------------------------------------------------------------------
+# part 4: histories of values.  Values that compare equal (and hash alike) but print differently, rendered one after
+# the other by the same and by new template objects; values that change between two renderings.
+
+class MyInt(int):
+    def __str__(self):
+        return 'my-int'
+
+
+class MyFloat(float):
+    def __str__(self):
+        return 'my-float'
+
+
+class Eq:
+    """equal and hash alike whenever the key is, printed as the label"""
+
+    def __init__(self, key, label):
+        self.key, self.label = key, label
+
+    def __eq__(self, other):
+        return (other.key if isinstance(other, Eq) else other) == self.key
+
+    def __hash__(self):
+        return hash(self.key)
+
+    def __str__(self):
+        return self.label
+
+
+class Mut:
+    def __init__(self):
+        self.v = 'm0'
+
+    def __str__(self):
+        return self.v
+
+
+def value_families():
+    """family -> [(value, expected text)]; within a family the values are == (element-wise for containers).
+    Expected text: str() of the value — Python's own rule, written as a literal wherever the literal is short."""
+    import enum
+    from decimal import Decimal
+    from fractions import Fraction
+
+    class Colour(enum.IntEnum):
+        RED = 1
+
+    def own(*vs):
+        return [(v, str(v)) for v in vs]
+    return {
+        'one': [(1, '1'), (1.0, '1.0'), (True, 'True'), (Fraction(1), '1'), (Decimal('1'), '1'), (Decimal('1.0'), '1.0'),
+                (Decimal('1.00'), '1.00'), (1 + 0j, '(1+0j)'), (MyInt(1), 'my-int'), (MyFloat(1.0), 'my-float'),
+                (Eq(1, 'eq-one'), 'eq-one'), (Eq(1.0, 'eq-one-float'), 'eq-one-float')] + own(Colour.RED),
+        'zero': [(0, '0'), (0.0, '0.0'), (-0.0, '-0.0'), (False, 'False'), (Decimal('0'), '0'), (Decimal('-0'), '-0'),
+                 (Decimal('0.0'), '0.0'), (0j, '0j'), (Fraction(0), '0'), (MyInt(0), 'my-int'), (Eq(0, ''), '')],
+        'three': [(3, '3'), (3.0, '3.0'), (Fraction(3), '3'), (Decimal('3.0'), '3.0')],
+        'minus-three': [(-3, '-3'), (-3.0, '-3.0'), (Decimal('-3'), '-3'), (Decimal('-3.00'), '-3.00')],
+        'seven': [(7, '7'), (7.0, '7.0'), (Decimal('7.0'), '7.0')],
+        'half': [(2.5, '2.5'), (Fraction(5, 2), '5/2'), (Decimal('2.5'), '2.5'), (Decimal('2.50'), '2.50')],
+        '2^53': [(2 ** 53, '9007199254740992'), (float(2 ** 53), '9007199254740992.0')],
+        '10^20': [(10 ** 20, '100000000000000000000'), (1e20, '1e+20'), (Decimal('1E+20'), '1E+20')],
+        '10^22': own(10 ** 22, 1e22),
+        'non-finite': own(float('inf'), float('-inf'), float('nan'), Decimal('Infinity')),
+        'tuple': [((1,), '(1,)'), ((1.0,), '(1.0,)'), ((True,), '(True,)'), ((0.0,), '(0.0,)'), ((-0.0,), '(-0.0,)'),
+                  ((0,), '(0,)')],
+        'list': [([1, 2], '[1, 2]'), ([1.0, 2], '[1.0, 2]'), ([True, 2.0], '[True, 2.0]')],
+        'dict': [({1: 1.0}, '{1: 1.0}'), ({1.0: 1}, '{1.0: 1}'), ({True: True}, '{True: True}')],
+        'set': [(frozenset([3]), 'frozenset({3})'), (frozenset([3.0]), 'frozenset({3.0})')],
+        'range': own(range(2), range(0, 2, 1), range(0, 2, 3)),
+        'bytearray': own(bytearray(b'ab')),
+        'eq-objects': [(Eq('k', 'first'), 'first'), (Eq('k', 'second'), 'second'), (Eq('k', 'k<'), 'k<')],
+        'exception-message': [(ValueError(1), '1'), (ValueError(1.0), '1.0'), (ValueError(True), 'True'),
+                              (KeyError(0), '0'), (KeyError(0.0), '0.0'), (KeyError(-0.0), '-0.0'),
+                              (Exception(1, 2), '(1, 2)'), (Exception(1.0, 2), '(1.0, 2)'),
+                              (Exception(MyInt(1)), 'my-int'), (Exception(Eq(1, 'eq')), 'eq')],
+    }
+
+
+# name, source, expected output from the expected text w of v
+VALUE_FORMS = [
+    ('plain', 'value=<dtml-var v>;', lambda w: 'value=%s;' % w),
+    ('entity', 'value=&dtml-v;;', lambda w: 'value=%s;' % _q(w)),
+    ('quoted', '[<dtml-var v html_quote>]', lambda w: '[%s]' % _q(w)),
+    ('expr', '[<dtml-var expr="v">]', lambda w: '[%s]' % w),
+    ('twice', '<dtml-var v>|<dtml-var v>', lambda w: '%s|%s' % (w, w)),
+    ('upper', '[<dtml-var v upper>]', lambda w: '[%s]' % w.upper()),
+    ('in-body', '<dtml-in seq>[<dtml-var v>]</dtml-in>', lambda w: '[%s]' % w),
+    ('if-body', '<dtml-if one>[<dtml-var v>]</dtml-if>', lambda w: '[%s]' % w),
+    ('let-bound', '<dtml-let w=v>[<dtml-var w>]</dtml-let>', lambda w: '[%s]' % w),
+    ('try-body', '<dtml-try>[<dtml-var v>]<dtml-except>H</dtml-try>', lambda w: '[%s]' % w),
+]
+TABLE = '<dtml-in vals>[<dtml-var sequence-item>]</dtml-in>'
+TABLE_Q = '<dtml-in vals>[&dtml-sequence-item;]</dtml-in>'
+PAIR = '<dtml-var a>|<dtml-var b>|&dtml-a;'
+
+
+def part4(res, r, rounds=1):
+    from DocumentTemplate import HTML
+    kept = {name: HTML(src) for name, src, fn in VALUE_FORMS}      # rendered again and again with other data
+    kept_table, kept_table_q, kept_pair = HTML(TABLE), HTML(TABLE_Q), HTML(PAIR)
+    history = []
+    styles = ('keyword', 'mapping', 'client')
+
+    def render(t, style, ns):
+        try:
+            if style == 'mapping':
+                return t(None, ns)
+            if style == 'client':
+                return t(Holder(**ns))
+            return t(**ns)
+        except Exception as e:  # noqa
+            return 'raised %r' % (e,)
+
+    def fail(case, got, want):
+        case['values rendered before, oldest first'] = history[-8:]
+        res.oracle_fail.append({'case': case, 'what': 'got %r, expected %r (the str() form of the value)' % (got, want)})
+
+    k = 0
+
+    def one(v, w, family):
+        nonlocal k
+        res.evaluations += 1
+        for name, src, fn in VALUE_FORMS:
+            k += 1
+            style = styles[k % 3]
+            for which, t in (('kept', kept[name]), ('new', HTML(src))):
+                got = render(t, style, {'v': v, 'seq': [1], 'one': 1})
+                if got != fn(w):
+                    fail({'kind': 'value-history', 'family': family, 'value': repr(v), 'type': type(v).__name__,
+                          'form': src, 'template': which, 'passed as': style}, got, fn(w))
+        history.append('%s %r' % (type(v).__name__, v))
+
+    fams = value_families()
+    for family, members in fams.items():
+        orders = [list(members), list(reversed(members))]
+        for _ in range(rounds):
+            o = list(members)
+            r.shuffle(o)
+            orders.append(o)
+        for order in orders:
+            res.count('value history: ' + family)
+            res.nt(('value-history', family, tuple(repr(v) for v, _ in order)))
+            for v, w in order:
+                one(v, w, family)
+            # the whole family as one table, plainly and quoted; neighbours side by side
+            vals = [v for v, _ in order]
+            for src, t, quote in ((TABLE, kept_table, False), (TABLE, HTML(TABLE), False), (TABLE_Q, kept_table_q, True)):
+                res.evaluations += 1
+                want = ''.join('[%s]' % (_q(w) if quote else w) for _, w in order)
+                got = render(t, 'keyword', {'vals': vals})
+                if got != want:
+                    fail({'kind': 'value-table', 'family': family, 'form': src, 'vals': repr(vals)}, got, want)
+            for (a, wa), (b, wb) in zip(order, order[1:]):
+                res.evaluations += 1
+                want = '%s|%s|%s' % (wa, wb, _q(wa))
+                got = render(kept_pair, 'keyword', {'a': a, 'b': b})
+                if got != want:
+                    fail({'kind': 'value-pair', 'family': family, 'form': PAIR, 'a': repr(a), 'b': repr(b)}, got, want)
+    # across families, in a random order (what is equal to what is the library's business, not ours)
+    flat = [(v, w, f) for f, ms in fams.items() for v, w in ms]
+    for _ in range(rounds):
+        r.shuffle(flat)
+        res.count('value history: mixed')
+        for v, w, f in flat:
+            one(v, w, f)
+    # values that change between two renderings of the same template: the text of now, not the text of before
+    lst, dct, mut, exc, ba = [1], {}, Mut(), ValueError('a'), bytearray(b'a')
+    steps = [
+        (lst, lambda: None, '[1]'), (lst, lambda: lst.append(2.0), '[1, 2.0]'), (lst, lambda: lst.__setitem__(0, 1.0), '[1.0, 2.0]'),
+        (dct, lambda: None, '{}'), (dct, lambda: dct.__setitem__('k', 0), "{'k': 0}"), (dct, lambda: dct.__setitem__('k', 0.0), "{'k': 0.0}"),
+        (mut, lambda: None, 'm0'), (mut, lambda: setattr(mut, 'v', 'm1<'), 'm1<'), (mut, lambda: setattr(mut, 'v', ''), ''),
+        (exc, lambda: None, 'a'), (exc, lambda: setattr(exc, 'args', ('b',)), 'b'), (exc, lambda: setattr(exc, 'args', ('a', 'b')), "('a', 'b')"),
+        (exc, lambda: setattr(exc, 'args', ()), ''), (exc, lambda: setattr(exc, 'args', (1.0,)), '1.0'),
+        (ba, lambda: None, "bytearray(b'a')"), (ba, lambda: ba.extend(b'b'), "bytearray(b'ab')"),
+    ]
+    for v, change, w in steps:
+        change()
+        res.count('value changed between renderings')
+        res.nt(('changed-value', type(v).__name__, w))
+        one(v, w, 'changed ' + type(v).__name__)
+
+
 def run(res, tier, have_driver):
     r = common.rng('C19')
     res.rule = ('part 1: %d texts (ASCII, Latin-1, C1, BMP, astral, HTML specials, empty) x 4 template encodings x 22 insertion '
                 'forms (plain, quoted, adjacent bytes, in / if / unless / let / with bodies, try-else, try-finally, handler, '
                 'sub-template, raise message): render(x=s.encode(enc)) == render(x=s) and the result is text; part 2: str() '
                 'forms of 35 values (numbers, containers, objects with __str__, exceptions with 0/1/n args incl. falsy args) '
-                'through 6 insertion forms, misbehaving __str__; non-trivial = distinct (encoding, form, non-ASCII text) / '
-                'value kinds' % len(TEXTS))
+                'through 6 insertion forms, misbehaving __str__; part 3 (several templates in one process): %d HTML and %d '
+                '%%(x)s sources with in / let / with / try / raise / if bodies, each created under ordered pairs of the encodings '
+                '{default, utf-8, latin-1, cp1252, utf-16} by the same class, a subclass and a third object (first, second, '
+                'first again with other data, other class, third), bytes then text, plus %d byte strings that are valid in '
+                'several encodings rendered by templates of each: output == literal expectation built from s and html.escape; '
+                'part 4 (histories of values): %d families of values that are == / hash alike but print differently (int / '
+                'float / bool / Decimal / Fraction / complex / int and float subclasses / IntEnum / objects with __eq__, signed '
+                'zeros, 2^53, 10^20, non-finite, containers of them, exception arguments) in forward, reverse and random order '
+                'and mixed across families, through %d forms on a kept template and a new one, passed as keyword / mapping / '
+                'client attribute, as one dtml-in table and side by side; lists, dicts, objects, exceptions and bytearrays '
+                'changed between two renderings: output == str() form of the value as it is now; non-trivial = distinct '
+                '(encoding, form, non-ASCII text) / value kinds / (source, encoding pair) / value orders'
+                % (len(TEXTS), len(SHARED_SOURCES), len(STRING_SOURCES), len(RAW_BYTES), len(value_families()),
+                   len(VALUE_FORMS)))
     part1(res, tier, have_driver, r)
+    part2(res, r)
+    thorough = tier == 'thorough'
+    part3(res, common.rng('C19-shared'), pairs_per_source=None if thorough else 8)
+    part4(res, common.rng('C19-values'), rounds=6 if thorough else 1)
+    # the same table once more: whatever the earlier parts left behind in the process must not show
     part2(res, r)
     res.partial.append('bytes through the full Var.render path (html_quote with another option, fmt=html-quote, '
                        '&dtml.html_quote-x;) are decoded as Latin-1: known finding C19-bytes-fullpath (= C03-bytes-fullpath)')
     res.assumptions += ['model codecs: UTF-8 and Latin-1 (round trips proved); cp1252 and utf-16 templates are compared on the '
-                        'implementation only', 'interpreter model validated (not verified) against the real classes']
+                        'implementation only', 'interpreter model validated (not verified) against the real classes',
+                        'parts 3 and 4 (several template objects / histories of values in one process) are decided on the '
+                        'implementation only: the model renders every case from a fresh state']
 
 
 def search_more(res, tier):
@@ -266,6 +617,8 @@ def search_more(res, tier):
     res2 = common.Result('C19')
     part1(res2, 'thorough', False, r)
     part2(res2, r)
+    part3(res2, r)
+    part4(res2, r, rounds=6)
     return res2.oracle_fail
 
 
